@@ -71,6 +71,10 @@ func (ts *Timers) withMap(x interface{}) error {
 	if err = json.Unmarshal(js, &ts.Map); err != nil {
 		return err
 	}
+	if ts.Map == nil {
+		// {"timers":null}
+		ts.Map = make(map[string]*TimerEntry, 8)
+	}
 	for id, te := range ts.Map {
 		if te == nil {
 			// {"timers":{"x":null}}
